@@ -108,6 +108,7 @@ func runC01(c *Ctx) {
 				return
 			}
 			c01Compare(c, "matrix", iv, t)
+			c01Compare(c, "matrix-iface", []interface{}{iv}, reflect.TypeOf([]interface{}{}))
 			encOps(c, iv, true)
 			p := reflect.New(t)
 			p.Elem().Set(v)
